@@ -6,7 +6,7 @@ props = [json.loads(l) for l in open(os.path.join(HERE, 'properties.jsonl'))]
 
 TECH = 'symbolic execution of the real code over object arrays + z3 QF_NRA (unsat for all values within bounds; sat replayed on float code)'
 
-BUILT = ['C01', 'C02', 'C03', 'C04', 'C05', 'C06', 'C07', 'C08', 'C11', 'C12', 'C15', 'C16', 'C17']
+BUILT = ['C01', 'C02', 'C03', 'C04', 'C05', 'C06', 'C07', 'C08', 'C09', 'C10', 'C13', 'C14', 'C11', 'C12', 'C15', 'C16', 'C17']
 FLOATS = 'floats read as reals (rounding/NaN/overflow outside the claim); definedness assumed (non-zero divisors, arguments in the open domain); '
 TEXTS = {
  'C01': ('for each overloaded function and each (D,P,shape) in the bound the real recurrences run on fully symbolic (real and complex) coefficients and every output '
@@ -28,6 +28,14 @@ TEXTS = {
          FLOATS + 'sizes N<=3, D<=4 (inv 2x2 D<=6), P<=2; numpy.linalg.inv/solve replaced by exact cofactor formulas; lu_factor by a pivoting model validated against LAPACK on the float build; logdet order 0 numeric only; det(A0)>0 for logdet', '4 C07'),
  'C08': ('zeroth coefficients are constructed from their factors (rational parametrisation of O(2)/SO(3), free triangular/diagonal entries), higher coefficients free symbols; the real recurrences run and QR=A, Q^TQ=I, R upper (reduced square/tall/wide, full), LL^T=A, PLU=A with unit-lower L / upper U / constant permutation (lu, lu2, lu_factor; all pivot paths), A=Q diag(lambda) Q^T with Q^TQ=I and ascending lambda_0 (distinct eigenvalues), AQ=Q diag(lambda) (eig, D<=2) are proved modulo t^D',
          FLOATS + 'LAPACK on A0 is a contract stub returning the factors A0 was built from (LU: explicit pivoting model); shapes 2x2, 3x2, 2x3, 3x3; D<=3 quick / <=4-5 thorough; repeated eigenvalues and svd are NOT covered (stated in DESIGN.md)', '4 C08'),
+ 'C09': ('generic polynomial programs with SYMBOLIC coefficients, point and direction (plus smooth programs) are evaluated with the real UTPM arithmetic on the init_* seeds; extract_jacobian / extract_jac_vec / extract_hessian (N<=5: triangular index arithmetic) / extract_hess_vec are proved equal to symbolic partial derivatives; extract_tensor at concrete integer points: |Gamma-interpolated value - exact partial/alpha!| <= 1e-9 proved for ALL coefficient vectors in [-1,1] (linear real arithmetic)',
+         FLOATS + 'N<=4(5), polynomial degree <=3 quick / 4 thorough, tensor order d<=4(5); Gamma is a float table (tolerance 1e-9)', '4 C09'),
+ 'C10': ('zeroth coefficient, shape, len, size, ndim of every catalogued operation proved equal to NumPy applied to the zeroth-coefficient symbolic arrays per direction (different base points); comparison operators: on every explored path the returned truth value is proved equal to the all-elements NumPy comparison; branches agree between ndarray/UTPM/Function; algopy.<f> on plain symbolic arrays == numpy/scipy.<f>',
+         FLOATS + 'operation catalogue symx/ops.py; LAPACK-backed zeroth coefficients compared with exact inverse/Cramer (stub on both sides)', '4 C10'),
+ 'C13': ('operand elements are distinct symbols: getitem for ~150 (quick) / ~1800 (thorough) index expressions from a grammar (ints, negative ints, slices with +-steps, Ellipsis, newaxis, tuples) on 1-3-D shapes, write-through-view, setitem with UTPM/broadcast UTPM/ndarray/scalar right-hand sides, reshape, transpose, sum(axis), tile, diag, tril/triu(k), trace, neg, conjugate/real/imag (complex), zeros/ones(-like), fft/ifft (n in {2,4}, any axis) proved slice-wise equal to NumPy; shares_memory compared with NumPy',
+         'index expressions/shapes enumerated (seeded); empty selections excluded from setitem; fft via exact DFT matrix stub for n | 4', '4 C13'),
+ 'C14': ('every catalogued operation leaves its arguments term-for-term unchanged; x op x, x op= x, x op= view-of-x (x[::-1], x.T, x[0], x[0:1]) proved equal to the same operation with an independent copy for all coefficient values (+,-,*,/, **, dot, outer, //); recording, re-evaluation and reverse sweeps leave user inputs and seeds unchanged',
+         FLOATS + 'catalogue symx/ops.py; D<=3 quick / 4 thorough, P=2', '4 C14'),
  'C11': ('each catalogued operation is run on P directions with independent symbols (incl. independent base points) and on each direction alone; equality of all coefficients is decided for all values; '
          'term support shows no symbol of another direction occurs', FLOATS + 'operation catalogue in symx/ops.py, D<=3/4, P<=2/3', '4 C11'),
  'C12': ("each catalogued operation at degree D and at every D'<D on the truncated symbolic input: first D' coefficients proved equal; coefficient d shown to mention no input symbol of order > d",
